@@ -51,6 +51,7 @@ fn main() {
                     "perm" => cos::replay_perm(c, &mut rep),
                     "req" => req::replay_req(&rctx, c, &mut rep),
                     "list" => lists::replay_list(c, &mut rep),
+                    "classify" => lists::replay_classify(c, &mut rep),
                     "net" => net::replay_net(&nctx, c, &mut rep),
                     "hist" => hist::replay_hist(&nctx, c, &mut rep),
                     "c02" => net::replay_c02(&ctx, c, &mut rep),
